@@ -370,6 +370,9 @@ class Text(Input):
                     thresholdFields = self._get_threshold_fields(header)
                     ensFields = self._get_ens_fields(header)
                     otherFields = self._get_other_fields(header)
+                    if verif.util.tracing():
+                        verif.util.trace("TextHeader", file=self._filename, header=list(header), quantile=list(quantileFields),
+                              threshold=list(thresholdFields), member=list(ensFields), other=list(otherFields))
                 else:
                     if len(row) != len(header):
                         verif.util.error("Incorrect number of columns (expecting %d) in row '%s'"
@@ -544,6 +547,11 @@ class Text(Input):
         self.members = np.array(self._members)
         self.locations = self._locations
         self.variable = self._get_variable()
+        if verif.util.tracing():
+            verif.util.trace("TextDims", file=self._filename, times=[float(t) for t in self.times],
+                  leadtimes=[float(t) for t in self.leadtimes], ids=[float(loc.id) for loc in self.locations],
+                  thresholds=[float(t) for t in self.thresholds], quantiles=[float(t) for t in self.quantiles],
+                  members=[float(t) for t in self.members])
 
     @property
     def other_fields(self):
